@@ -29,7 +29,25 @@ var ggufBoundary = []uint64{0, 1, 2, 1 << 31, 1<<32 - 1, 1 << 32, 1 << 63, 1<<64
 func damageGGUF(orig []byte) ([]byte, string) {
 	d := verifsim.Draw
 	b := append([]byte(nil), orig...)
-	switch d("damage-kind", 8) {
+	switch d("damage-kind", 10) {
+	case 8:
+		// a file that holds more than one GGUF (the shape of "model followed by projector"):
+		// the valid file followed by itself, whole or cut short, once or twice
+		n := 1 + d("concat-copies", 2)
+		desc := fmt.Sprintf("the file followed by %d more copies of itself", n)
+		for i := 0; i < n; i++ {
+			b = append(b, orig...)
+		}
+		if d("concat-cut", 3) == 0 {
+			k := d("concat-cut-at", len(orig))
+			b = b[:len(b)-len(orig)+k]
+			desc += fmt.Sprintf(", the last one truncated at %d/%d", k, len(orig))
+		}
+		return b, desc
+	case 9:
+		// the valid file followed by a few bytes that are not a GGUF
+		junk := [][]byte{{0}, []byte("GGUF"), []byte("GGUF\x03\x00\x00\x00"), bytes.Repeat([]byte{0xff}, 40), []byte("\n")}[d("junk", 5)]
+		return append(b, junk...), fmt.Sprintf("the file followed by %d stray bytes %q", len(junk), junk)
 	case 7:
 		// two tensors, each smaller than 2^63 bytes, whose sizes add up - together with
 		// the position of the tensor data and the other tensors - to 2^64 plus a small
